@@ -88,9 +88,9 @@ class Transition:
                 ex.assume(ax)
             small += filter_vocab_pref(flts)
 
-            def margins(ex_, pre=pre, args=args):
-                # stored instants and time arguments lie at least a minute away from the clock readings of the step,
-                # and the step itself takes under a millisecond
+            def margins(ex_, pre=pre, args=args, gap=60 * 10**9):
+                # stored instants and time arguments lie at least a minute (second attempt: two seconds) away from the clock readings
+                # of the step, and the step itself takes under a millisecond
                 nows = stdlib.clock(ex_)['nows']
                 if not nows:
                     return []
@@ -105,10 +105,10 @@ class Transition:
                     if k == 'time' and is_sym(v):
                         vals.append(v)
                 for v in vals:
-                    cs.append(z3.Or(v <= nows[0] - 60 * 10**9, v >= nows[-1] + 60 * 10**9))
+                    cs.append(z3.Or(v <= nows[0] - gap, v >= nows[-1] + gap))
                     if 'min_age' in args:
-                        # age thresholds: nothing sits within a minute of "now - min_age" either
-                        cs.append(z3.Or(v <= nows[0] - args['min_age'] - 60 * 10**9, v >= nows[-1] - args['min_age'] + 60 * 10**9))
+                        # age thresholds: nothing sits within the gap of "now - min_age" either
+                        cs.append(z3.Or(v <= nows[0] - args['min_age'] - gap, v >= nows[-1] - args['min_age'] + gap))
                 return cs
             ex.env['replay_margins'] = margins
             err, res = T.call(ex, db, args)
